@@ -22,7 +22,7 @@ package collection
 //@   ensures fresh(result) && view(result) == view(this) && len(result) <= MAXLEN
 //@ iface Sequential.GetIterator
 //@   nopanic
-//@   ensures fresh(result) && result != nil && snap(result) == view(this) && pos(result) == 0
+//@   ensures fresh(result) && result != nil && snap(result) == view(this) && pos(result) == 0 && len(snap(result)) <= MAXLEN
 
 // ---------------------------------------------------------------- Accessible / Updatable
 
@@ -956,3 +956,120 @@ package collection
 //@     invariant forall j :: pos(iterator) <= j && j < len(snap(iterator)) ==> dom(this, snap(iterator)[j])
 //@     invariant forall k U :: dom(this, k) ==> kin(snap(iterator)[pos(iterator) : len(snap(iterator))], k)
 //@     decreases len(snap(iterator)) - pos(iterator)
+
+// ---------------------------------------------------------------- catalog_ (C03, C16)
+
+// permof(s, t): s is a permutation of t, witnessed by the index maps pidx / pinv.
+//@ declare permof(Seq, Seq) Bool
+//@ declare pidx(Seq, Seq, Int) Int
+//@ declare pinv(Seq, Seq, Int) Int
+//@ axiom permof_def: forall s Seq, t Seq :: permof(s, t) ==> len(s) == len(t) && (forall i :: 0 <= i && i < len(s) ==> 0 <= pidx(s, t, i) && pidx(s, t, i) < len(t) && t[pidx(s, t, i)] == s[i] && pinv(s, t, pidx(s, t, i)) == i) && (forall j :: 0 <= j && j < len(t) ==> 0 <= pinv(s, t, j) && pinv(s, t, j) < len(s) && s[pinv(s, t, j)] == t[j] && pidx(s, t, pinv(s, t, j)) == j)
+
+//@ define wellkeyed(s) := ukeys(s) && (forall i :: 0 <= i && i < len(s) ==> s[i] != nil)
+
+//@ type *catalog_
+//@   view view(this.associations_)
+//@   invariant this.class_ != nil && this.associations_ != nil && this.keys_ != nil
+//@   invariant[C03] forall i :: 0 <= i && i < len(view(this.associations_)) ==> view(this.associations_)[i] != nil && dom(this.keys_, akey(view(this.associations_)[i])) && get(this.keys_, akey(view(this.associations_)[i])) == view(this.associations_)[i]
+//@   invariant[C03] forall k U :: dom(this.keys_, k) ==> kmem(view(this.associations_), k)
+//@   invariant[C03] ukeys(view(this.associations_))
+
+//@ lemma[C03,C16] kmem_append: forall s Seq, a U, k U :: kmem(s ++ single(a), k) <==> kmem(s, k) || akey(a) == k
+//@ lemma[C03,C16] kmem_remove: forall s Seq, p Int, k U :: 0 <= p && p < len(s) && ukeys(s) ==> (kmem(remove(s, p), k) <==> kmem(s, k) && k != akey(s[p]))
+//@ lemma[C03,C16] kwit_unique: forall s Seq, i Int :: ukeys(s) && 0 <= i && i < len(s) ==> kwit(s, akey(s[i])) == i
+//@ lemma[C03] kmem_perm: forall s Seq, t Seq, k U :: permof(s, t) ==> (kmem(s, k) <==> kmem(t, k))
+//@ lemma[C03] ukeys_perm: forall s Seq, t Seq :: permof(s, t) && ukeys(t) ==> ukeys(s)
+
+//@ iface CatalogClassLike.Notation
+//@   nopanic
+//@ iface CatalogClassLike.Make
+//@   nopanic
+//@   ensures fresh(result) && result != nil && view(result) == empty()
+
+//@ iface CatalogLike.GetValue
+//@   nopanic
+//@   ensures[C03] kmem(view(this), key) ==> result == aval(view(this)[kwit(view(this), key)])
+//@   ensures[C03] !kmem(view(this), key) ==> result == zero(V)
+//@ iface CatalogLike.SetValue
+//@   let s := view(this)
+//@   let n := len(view(this))
+//@   nopanic
+//@   modifies view(this), aval(view(this)[kwit(view(this), key)])
+//@   ensures[C03] kmem(s, key) ==> view(this) == s && aval(s[kwit(s, key)]) == value
+//@   ensures[C03] !kmem(s, key) ==> len(view(this)) == n + 1 && view(this)[0:n] == s && fresh(view(this)[n]) && akey(view(this)[n]) == key && aval(view(this)[n]) == value
+//@   ensures[C03] wellkeyed(s) ==> wellkeyed(view(this))
+//@ iface CatalogLike.RemoveValue
+//@   let s := view(this)
+//@   nopanic
+//@   modifies view(this)
+//@   ensures[C03] kmem(s, key) ==> result == aval(s[kwit(s, key)]) && view(this) == remove(s, kwit(s, key))
+//@   ensures[C03] !kmem(s, key) ==> result == zero(V) && view(this) == s
+//@   ensures[C03] wellkeyed(s) ==> wellkeyed(view(this))
+//@ iface CatalogLike.RemoveAll
+//@   nopanic
+//@   modifies view(this)
+//@   ensures[C03] view(this) == empty()
+//@ iface CatalogLike.GetKeys
+//@   nopanic
+//@   ensures[C03,C18] fresh(result) && result != nil && len(view(result)) == len(view(this)) && (forall i :: 0 <= i && i < len(view(this)) ==> view(result)[i] == akey(view(this)[i]))
+//@ iface CatalogLike.GetValues
+//@   nopanic
+//@   ensures[C03,C18] fresh(result) && result != nil && len(view(result)) == len(view(keys))
+//@   ensures[C03] forall j :: 0 <= j && j < len(view(keys)) ==> view(result)[j] == ite(kmem(view(this), view(keys)[j]), aval(view(this)[kwit(view(this), view(keys)[j])]), zero(V))
+
+//@ func (*catalogClass_).Make
+//@   props C03 C16
+//@   implements CatalogClassLike.Make
+//@   ensures inv(catalog_, result)
+//@ func (*catalog_).GetValue
+//@   props C03 C16
+//@   implements CatalogLike.GetValue
+//@   uses kwit_unique
+//@ func (*catalog_).SetValue
+//@   props C03 C16
+//@   implements CatalogLike.SetValue
+//@   uses kmem_append, kwit_unique
+//@ func (*catalog_).RemoveValue
+//@   props C03
+//@   implements CatalogLike.RemoveValue
+//@   uses kmem_remove, kwit_unique
+//@   let s := view(this)
+//@   loop 1:
+//@     invariant snap(iterator) == s && 0 <= pos(iterator) && pos(iterator) <= len(s) && index == pos(iterator) && view(this) == s && kmem(s, key) && this.keys_ == old(this.keys_) && this.associations_ == old(this.associations_)
+//@     invariant forall j :: 0 <= j && j < index ==> akey(s[j]) != key
+//@     invariant unchanged(view)
+//@     decreases len(s) - pos(iterator)
+//@ func (*catalog_).RemoveAll
+//@   props C03
+//@   implements CatalogLike.RemoveAll
+//@ func (*catalog_).GetKeys
+//@   props C03 C18
+//@   implements CatalogLike.GetKeys
+//@   let s := view(this)
+//@   loop 1:
+//@     invariant snap(iterator) == s && 0 <= pos(iterator) && pos(iterator) <= len(s) && keys != nil && fresh(keys) && view(this) == s
+//@     invariant len(view(keys)) == pos(iterator) && (forall i :: 0 <= i && i < pos(iterator) ==> view(keys)[i] == akey(s[i]))
+//@     invariant forall i :: 0 <= i && i < len(s) ==> s[i] != nil
+//@     decreases len(s) - pos(iterator)
+//@ func (*catalog_).GetValues
+//@   props C03 C18
+//@   implements CatalogLike.GetValues
+//@   let ks := view(keys)
+//@   loop 1:
+//@     invariant snap(iterator) == ks && 0 <= pos(iterator) && pos(iterator) <= len(ks) && values != nil && fresh(values) && view(this) == old(view(this)) && view(keys) == ks
+//@     invariant len(view(values)) == pos(iterator)
+//@     invariant forall j :: 0 <= j && j < pos(iterator) ==> view(values)[j] == ite(kmem(view(this), ks[j]), aval(view(this)[kwit(view(this), ks[j])]), zero(V))
+//@     invariant unchanged(aval)
+//@     decreases len(ks) - pos(iterator)
+//@ func (*catalog_).IsEmpty
+//@   props C03
+//@   implements Sequential.IsEmpty
+//@ func (*catalog_).GetSize
+//@   props C03
+//@   implements Sequential.GetSize
+//@ func (*catalog_).AsArray
+//@   props C03 C18
+//@   implements Sequential.AsArray
+//@ func (*catalog_).GetIterator
+//@   props C03 C17 C18
+//@   implements Sequential.GetIterator
